@@ -463,21 +463,27 @@ func (fi *forwardIndex) findSeriesIDsForTag(tagKeyID tag.KeyID) (*roaring.Bitmap
 
 // GetGroupingContext returns the context of group by
 func (fi *forwardIndex) GetGroupingContext(ctx *flow.ShardExecuteContext) error {
-	snapshot := fi.family.GetSnapshot()
-	defer snapshot.Close()
-
 	scannerMap := make(map[tag.KeyID][]flow.GroupingScanner)
 	tagKeyIDs := ctx.StorageExecuteCtx.GroupByTagKeyIDs
 	seriesIDs := ctx.SeriesIDsAfterFiltering
+	// NOTE: must read memory store before getting snapshot(same as findSeriesIDsForTag)
+	memScanners := make([][]flow.GroupingScanner, len(tagKeyIDs))
+	for idx, tagKeyID := range tagKeyIDs {
+		memScanners[idx] = fi.getMemGroupingScanners(tagKeyID, seriesIDs)
+	}
+
+	snapshot := fi.family.GetSnapshot()
+	defer snapshot.Close()
+
 	finalSeriesIDs := seriesIDs.Clone()
 	defer func() {
 		// maybe filtering some series ids that is result of filtering.
 		// if not found, return empty series ids.
 		ctx.SeriesIDsAfterFiltering = finalSeriesIDs
 	}()
-	for _, tagKeyID := range tagKeyIDs {
+	for idx, tagKeyID := range tagKeyIDs {
 		// get grouping scanners by tag key
-		scanners, err := fi.getGroupingScanners(tagKeyID, seriesIDs, snapshot)
+		scanners, err := fi.getGroupingScanners(tagKeyID, seriesIDs, memScanners[idx], snapshot)
 		if err != nil {
 			return err
 		}
@@ -497,12 +503,8 @@ func (fi *forwardIndex) GetGroupingContext(ctx *flow.ShardExecuteContext) error 
 	return nil
 }
 
-// getGroupingScanners returns the grouping scanner list for tag key, need match series ids
-func (fi *forwardIndex) getGroupingScanners(
-	tagKeyID tag.KeyID,
-	seriesIDs *roaring.Bitmap,
-	snapshot version.Snapshot,
-) ([]flow.GroupingScanner, error) {
+// getMemGroupingScanners returns the grouping scanner list for tag key from mutable/immutable store, need match series ids
+func (fi *forwardIndex) getMemGroupingScanners(tagKeyID tag.KeyID, seriesIDs *roaring.Bitmap) []flow.GroupingScanner {
 	var result []flow.GroupingScanner
 	// read data from mem
 	fi.loadSeriesIDsInMem(tagKeyID, func(tagIndex *imap.IntMap[uint32]) {
@@ -514,7 +516,16 @@ func (fi *forwardIndex) getGroupingScanners(
 		}
 		result = append(result, &memGroupingScanner{forward: tagIndex, withLock: fi.withLock})
 	})
+	return result
+}
 
+// getGroupingScanners returns the grouping scanner list for tag key(memory scanners + kv store), need match series ids
+func (fi *forwardIndex) getGroupingScanners(
+	tagKeyID tag.KeyID,
+	seriesIDs *roaring.Bitmap,
+	result []flow.GroupingScanner,
+	snapshot version.Snapshot,
+) ([]flow.GroupingScanner, error) {
 	// read data from kv store
 	// try to get tag key id from kv store
 	readers, err := snapshot.FindReaders(uint32(tagKeyID))
